@@ -246,6 +246,10 @@ def t_allowed( ctx ):
     if not users:
         res.bad( src, table, '%s = {...}' % tname, 'the compatibility table is never asserted against the request type' )
         return res
+    rows_ = { dotted( k )[:-len( '.tag_type' )].split( '.' )[-1] for k in table.keys if dotted( k ) }
+    dflt_same = any( isinstance( c_, ast.Call ) and isinstance( c_.func, ast.Attribute ) and c_.func.attr == 'get' and dotted( c_.func.value ) == tname and len( c_.args ) == 2 for u_ in users for c_ in ast.walk( u_.test ))
+    if 'STRUCT' not in rows_ and dflt_same:
+        res.bad( src, table, 'allowed_tag_types has no row for STRUCT: the default ( the tag\'s own type ) admits a STRUCT write', 'a write of raw UDT data is acknowledged and stores the keys of the payload mapping into the tag: every later read of the element fails' )
     for k, v in zip( table.keys, table.values ):
         T = dotted( k )[:-len( '.tag_type' )].split( '.' )[-1]
         if not isinstance( v, ( ast.Tuple, ast.List, ast.Set )):
@@ -257,6 +261,15 @@ def t_allowed( ctx ):
                 if ad_ is None or not ad_.endswith( '.tag_type' ):
                     raise AnalysisError( 'cell %s of row %s not of the form X.tag_type' % ( norm_text( a_ ), T ))
                 yield a_, ad_[:-len( '.tag_type' )].split( '.' )[-1]
+        if T == 'STRUCT':
+            # a UDT tag holds records that are served as opaque raw data; the payload of a write is a raw .input, which the slice store would
+            # iterate as a mapping ( its KEYS end up in the tag, every later read fails ): no request type may be admitted
+            res.cells += 1
+            if not v.elts:
+                res.ok( src, v, 'STRUCT tag: no request type is admitted ( UDT records cannot be written )' )
+            else:
+                res.bad( src, v, 'allowed_tag_types[STRUCT] admits %s' % norm_text( v ), 'a write of raw UDT data is acknowledged and stores the keys of the payload mapping into the tag: every later read of the element fails' )
+            continue
         if T in TEXT or any( A_ in TEXT for _, A_ in admitted_names( v )):
             for a, A in admitted_names( v ):
                 res.cells += 1
